@@ -563,6 +563,57 @@ impl Gen {
         self.scope.push(vec![]);
         let n = self.rng.below(self.cfg.max_stmts + 1);
         let mut out = vec![];
+        // faults that only an analyzer with a wrong scoping rule accepts: shadow an outer name in
+        // this block, then use it as if it still were the outer declaration
+        if self.fault("B7-shadow-then-outer-type") {
+            let outer: Vec<(String, PT)> = self
+                .visible_names()
+                .into_iter()
+                .filter_map(|n| match self.lookup(&n) {
+                    Some((Ty::Prim(t), _)) => Some((n, t)),
+                    _ => None,
+                })
+                .collect();
+            if let Some((name, t)) = outer.first().cloned() {
+                let u = self.other_prim(&Ty::Prim(t));
+                out.push(St::Let(LetS {
+                    name: name.clone(),
+                    mutable: false,
+                    ty: Some(Ty::Prim(u)),
+                    value: Ex::single(EV::Lit(prim_lit(&mut self.frng, u))),
+                }));
+                self.declare(&name, Ty::Prim(u), false);
+                out.push(St::Let(LetS {
+                    name: "w".to_string(),
+                    mutable: false,
+                    ty: Some(Ty::Prim(t)),
+                    value: Ex::single(EV::Var(name)),
+                }));
+            }
+        }
+        if self.fault("B8-shadow-then-outer-mut") {
+            let outer: Vec<(String, PT)> = self
+                .visible_names()
+                .into_iter()
+                .filter_map(|n| match self.lookup(&n) {
+                    Some((Ty::Prim(t), true)) => Some((n, t)),
+                    _ => None,
+                })
+                .collect();
+            if let Some((name, t)) = outer.first().cloned() {
+                out.push(St::Let(LetS {
+                    name: name.clone(),
+                    mutable: false,
+                    ty: None,
+                    value: Ex::single(EV::Lit(prim_lit(&mut self.frng, t))),
+                }));
+                self.declare(&name, Ty::Prim(t), false);
+                out.push(St::Set(SetS {
+                    name,
+                    value: Ex::single(EV::Lit(prim_lit(&mut self.frng, t))),
+                }));
+            }
+        }
         for i in 0..n {
             let last = i + 1 == n;
             if let Some(s) = self.stmt(kind, depth, last, result) {
@@ -639,6 +690,11 @@ impl Gen {
     /// one statement of a block of the given kind (3 = function body)
     fn stmt(&mut self, kind: u8, depth: usize, last: bool, result: &Ty) -> Option<St> {
         let loopish = kind == 1 || kind == 2;
+        // loop-flavoured bodies end in break / continue often enough for combinations (a loop that ends
+        // in `continue` around an `if` that ends in `break`, …) to occur in every run
+        if loopish && last && self.rng.chance(if kind == 1 { 2 } else { 1 }, 5) {
+            return Some(if self.rng.chance(1, 2) { St::Brk } else { St::Cont });
+        }
         let r = if self.cfg.simple {
             // control-flow skeletons: half of the statements are control statements
             [0, 5, 7, 7, 9, 9, 10, 10, 11, 11, 12, 13, 14, 9, 11, 7][self.rng.below(16)]
@@ -703,7 +759,19 @@ impl Gen {
                 }
             }
         }
-        if !self.fault("B12-no-return") {
+        let no_return = self.fault("B12-no-return");
+        if no_return && self.frng.chance(1, 2) {
+            // … but a return nested in an if body (must not count as the function-level return)
+            if let Some(e) = self.expr(&sig.result, 1) {
+                body.push(St::If(IfS {
+                    cond: IfC::Single(Ex::single(EV::Lit(PV::Bool(true)))),
+                    body: Bodies::If(vec![St::Ret(e)]),
+                    els: None,
+                    elif: None,
+                }));
+            }
+        }
+        if !no_return {
             let ret_ty = if self.fault("B11-return-type") {
                 Ty::Prim(self.other_prim(&sig.result))
             } else {
@@ -864,16 +932,37 @@ impl Gen {
             .map(|(n, a)| Top::Types(n.clone(), a.clone()))
             .collect();
         // duplicates
+        // (half of the duplicates re-declare the name with a different content: the first declaration must win)
         if !type_tops.is_empty() && self.fault("D1-type-dup") {
-            let t = type_tops[0].clone();
+            let mut t = type_tops[0].clone();
+            if self.frng.chance(1, 2) {
+                if let Top::Types(_, attrs) = &mut t {
+                    *attrs = vec![("dupattr".to_string(), Ty::Prim(PT::Bool))];
+                }
+            }
             type_tops.push(t);
         }
         if !const_tops.is_empty() && self.fault("D3-const-dup") {
-            let t = const_tops[0].clone();
+            let mut t = const_tops[0].clone();
+            if self.frng.chance(1, 2) {
+                if let Top::Const(_, ty, ce) = &mut t {
+                    let other = if *ty == Ty::Prim(PT::Bool) { PT::U8 } else { PT::Bool };
+                    *ty = Ty::Prim(other);
+                    *ce = CE { v: CV::Val(prim_lit(&mut self.frng, other)), rest: None };
+                }
+            }
             const_tops.push(t);
         }
         if self.fault("D6-fn-dup") {
-            let t = fn_tops[0].clone();
+            let mut t = fn_tops[0].clone();
+            if self.frng.chance(1, 2) {
+                if let Top::Fn(f) = &mut t {
+                    let other = if f.result == Ty::Prim(PT::Bool) { PT::U8 } else { PT::Bool };
+                    f.params = vec![];
+                    f.result = Ty::Prim(other);
+                    f.body = vec![St::Ret(Ex::single(EV::Lit(prim_lit(&mut self.frng, other))))];
+                }
+            }
             fn_tops.push(t);
         }
         // interleave, keeping the relative order of the constants
